@@ -21,4 +21,40 @@ def mapSet : GMap → UInt8 → Bytes → GMap
 /-- `delete(m, k)` -/
 def mapDel (m : GMap) (k : UInt8) : GMap := m.filter (fun e => e.1 != k)
 
+/-- `xs[i]` on a slice of values (Go `int` index): panics when `i < 0` or `i ≥ len(xs)` -/
+def listIdxI {α} (xs : List α) (i : Int) : Outcome α :=
+  if 0 ≤ i then (match xs[i.toNat]? with | some v => .ok v | none => .panic) else .panic
+
+/-- `binary.BigEndian.Uint16(s)`: panics when `len(s) < 2` -/
+def be16I (s : Bytes) : Outcome UInt16 :=
+  match s with
+  | a :: b :: _ => .ok ((a.toUInt16 <<< 8) ||| b.toUInt16)
+  | _ => .panic
+
+/-- `binary.BigEndian.Uint32(s)`: panics when `len(s) < 4` -/
+def be32I (s : Bytes) : Outcome UInt32 :=
+  match s with
+  | a :: b :: c :: d :: _ => .ok ((a.toUInt32 <<< 24) ||| (b.toUInt32 <<< 16) ||| (c.toUInt32 <<< 8) ||| d.toUInt32)
+  | _ => .panic
+
+/-- `net.IP.To16`: an IPv4 address as the IPv4-mapped IPv6 address, a 16-byte address itself, nil otherwise -/
+def ipTo16 (ip : Bytes) : Bytes :=
+  if ip.length = 4 then [0, 0, 0, 0, 0, 0, 0, 0, 0, 0, 0xff, 0xff] ++ ip
+  else if ip.length = 16 then ip
+  else []
+
+/-- Go's `uint8(i)` / `uint16(i)` / `uint32(i)` of an `int`: the low bits (two's complement) -/
+def intToUInt8 (i : Int) : UInt8 := UInt8.ofNat (i % 256).toNat
+def intToUInt16 (i : Int) : UInt16 := UInt16.ofNat (i % 65536).toNat
+def intToUInt32 (i : Int) : UInt32 := UInt32.ofNat (i % 4294967296).toNat
+
+/-- `if err := f(); err != nil { … } else { … }` with the error ignored: the value (the callee's receiver) keeps `dflt`
+    on an error; the flag says which branch runs.  A panic / hang of the callee is one of the caller. -/
+def catchErr {α} (x : Outcome α) (dflt : α) : Outcome (α × Bool) :=
+  match x with
+  | .ok a => .ok (a, true)
+  | .err _ => .ok (dflt, false)
+  | .panic => .panic
+  | .hang => .hang
+
 end PV.Model.LoopGoOpts
